@@ -473,6 +473,10 @@ class Population:
             if k in w.order:
                 ops += [['move', k, d] for d in self.deltas]
                 ops += [['move_to', k, s] for s in self.spots[:3]]
+                # positions as value objects: the agent's component is taken off and a new one attached; the component's
+                # coordinates are written directly
+                ops += [['newpc', k, s] for s in self.spots[1:3]]
+                ops += [['edit', k, self.spots[3]]]
                 ops.append(['remove', k])
             else:
                 ops += [['add', k, s] for s in self.spots]
@@ -501,6 +505,12 @@ class Population:
             w.env.move(a, *op[2])
         elif op[0] == 'move_to':
             w.env.move_to(a, *op[2][:self.nargs])
+        elif op[0] == 'newpc':
+            a.remove_component(PC)
+            a.add_component(PC(a, w.model, *op[2]))
+        elif op[0] == 'edit':
+            pc = a[PC]
+            pc.x, pc.y, pc.z = op[2]
         else:
             w.env.remove_agent(op[1])
             w.order.remove(op[1])
